@@ -545,7 +545,13 @@ fn run_parser_cmd(args: &[String]) -> i32 {
                         if i % stride != 0 && !all_protos {
                             continue;
                         }
-                        let inst = parser_run::make_pinst(&mut r, i + pr.v as usize * 3 + pr.public as usize);
+                        let mut inst = parser_run::make_pinst(&mut r, i + pr.v as usize * 3 + pr.public as usize);
+                        if beh.layer == "generic" && family.starts_with("c16") && i % 7 == 3 {
+                            parser_run::timekey_names(&mut inst);
+                        }
+                        if i % 9 == 5 {
+                            parser_run::wrapper_values(&mut inst);
+                        }
                         let base = (i * 7919 + pr.v as usize * 104729) % parser_run::RENDERINGS;
                         let tsel = move |j: usize| (base + j * 6151) % parser_run::RENDERINGS;
                         let line = parser_run::run_pbehaviour(&format!("{}:{}", i, pr.name()), pr, beh, table, &inst, &tsel, &mut r);
